@@ -63,6 +63,9 @@ func alternatives(p Position, withPanic, thorough bool) []string {
 	var out []string
 	switch p.Kind {
 	case "element":
+		if !p.Nilable {
+			return nil
+		}
 		if p.Abstract {
 			if withPanic {
 				return []string{"null", "alt", "rogue"}
@@ -319,3 +322,75 @@ func SortedKeys(m map[string]int) []string {
 }
 
 var _ = strings.Join
+
+// ---------------------------------------------------------------------------------
+// Alphabets of the `shapes` probe (nested lists, enums, object-valued struct fields,
+// method-bound fields, a map-backed model, an interface implementing an interface).
+
+var ShapesConds = map[string][]string{
+	"M":     {"", "Node", "Box"},
+	"N":     {"", "Node"},
+	"Node":  {"", "M", "N", "Box"},
+	"Box":   {"", "M", "Node"},
+	"Query": {""},
+}
+
+func shapesFields(level string) map[string][]string {
+	f := map[string][]string{
+		"Query":    {"m", "mReq", "ms", "box", "node", "h", "mo"},
+		"Mutation": {"m1", "m2"},
+		"M":        {"id", "color", "colorReq", "colorR", "colors", "grid", "gridReq", "tags", "kidPlain", "kidsPlain", "inner", "h", "mo", "guarded", "__typename"},
+		"N":        {"id", "label"},
+		"H":        {"id", "meth", "methErr", "methVal", "methCtx", "methCtxReq", "methCtxList", "methOk"},
+		"MO":       {"id", "title", "sub"},
+		"Node":     {"id", "__typename"},
+		"Box":      {"id", "inner", "__typename"},
+	}
+	if level == "core" {
+		f["Query"] = []string{"m", "mReq", "h", "mo", "box"}
+		f["M"] = []string{"id", "color", "colorR", "grid", "gridReq", "tags", "kidPlain", "kidsPlain", "h", "mo"}
+	}
+	return f
+}
+
+// ShapesCorpus: larger hand-written operations over the shapes probe.
+func ShapesCorpus() []Op {
+	qs := []string{
+		`{m{grid{id tags} gridReq{id kidPlain{id kidPlain{id}}} tags colors color colorReq colorR}}`,
+		`{ms{kidsPlain{id color colorReq kidsPlain{id} grid{id}} kidPlain{kidsPlain{id} kidPlain{id} h{id meth}}}}`,
+		`{h{id meth methErr methVal methCtx{id meth methCtxReq} methCtxReq methOk methCtxList{id methCtx{id methOk}}}}`,
+		`{mo{id title sub{id kidPlain{id} grid{id}}} m{mo{sub{id color}}}}`,
+		`{box{id inner{id ... on N{label}} ... on M{color}} node{... on Box{inner{id}} ... on N{label}}}`,
+		`{mReq{gridReq{gridReq{id}} h{methCtxReq}}}`,
+		`{m{x:grid{id} y:grid{colorR} guarded}}`,
+	}
+	var out []Op
+	for _, q := range qs {
+		out = append(out, Op{Text: q})
+	}
+	out = append(out, Op{Text: `mutation{m1{id grid{id}} m2{methCtxReq meth}}`})
+	return out
+}
+
+// ShapesSpec returns the enumeration job of a property/tier over the shapes probe.
+func ShapesSpec(prop, tier string) MassSpec {
+	thorough := tier == "thorough"
+	sp := MassSpec{Deviations: 1, Thorough: thorough, ExtraOps: ShapesCorpus()}
+	if prop == "C04" {
+		sp.WithPanic, sp.Intercept = true, true
+	}
+	if thorough {
+		sp.Gens = []GenCfg{
+			{Root: "Query", Fields: shapesFields("wide"), Conds: ShapesConds, MaxNodes: 4, Spreads: true},
+			{Root: "Query", Fields: shapesFields("core"), Conds: ShapesConds, MaxNodes: 3, Aliases: true, Dev: 2},
+			{Root: "Mutation", Fields: shapesFields("wide"), Conds: ShapesConds, MaxNodes: 3},
+		}
+		return sp
+	}
+	sp.Gens = []GenCfg{
+		{Root: "Query", Fields: shapesFields("wide"), Conds: ShapesConds, MaxNodes: 3, Spreads: true},
+		{Root: "Query", Fields: shapesFields("core"), Conds: ShapesConds, MaxNodes: 4},
+		{Root: "Mutation", Fields: shapesFields("wide"), Conds: ShapesConds, MaxNodes: 3},
+	}
+	return sp
+}
